@@ -121,12 +121,12 @@ def explodeM (cfg : MCfg) (rn : TermId → Out) : List (CPart × Opt) → List (
     (OutG.bind oa.vals .done fun av =>
       (OutG.bind ob.vals .done fun bv => explodeM cfg rn rest ((.range (some av) (some bv), o) :: acc)).append fun _ =>
         exTail cfg ob.stop restO).append fun _ =>
-      -- an error item of `from` is paired with every item of `upto`, each then with the rest
+      -- an error item of `from` is paired with every item of `upto` (an error item of `upto`
+      -- included), each pair then with the rest
       exTail cfg oa.stop (match ob.vals, ob.stop with
         | [], .done => ⟨[], .done⟩
         | [], .fuel => ⟨[], .fuel⟩
-        | [], s => ⟨[], s⟩
-        | _ :: _, _ => restO)
+        | _, _ => restO)
 where
   /-- an error item of this part's stream survives iff the combinations of the remaining
   parts are not empty (they are independent of the item) -/
